@@ -60,8 +60,13 @@ def reexec_in_venv(argv):
     """Re-exec the current script under the overlay interpreter (idempotent)."""
     if os.path.realpath(sys.prefix) == os.path.realpath(VENV):
         return
+    if os.environ.get("VERIF_REPO") and os.environ["VERIF_REPO"] not in os.environ.get("PYTHONPATH", ""):
+        pass  # handled below (PYTHONPATH is set for the re-exec)
     py = ensure_venv()
     env = dict(os.environ)
+    # VERIF_REPO (background sizing runs only): import the repository from a snapshot instead of /repo itself
+    if env.get("VERIF_REPO"):
+        env["PYTHONPATH"] = env["VERIF_REPO"] + (os.pathsep + env["PYTHONPATH"] if env.get("PYTHONPATH") else "")
     env.setdefault("PYTHONHASHSEED", "0")
     env["PYTHONDONTWRITEBYTECODE"] = "1"
     os.execve(py, [py] + argv, env)
